@@ -43,7 +43,7 @@ func H_C05_compareData() {
 	reach("compared")
 }
 
-var alphaShrink = []uint8{opReturn, opDrawBool, opErrorf, opFatalA, opFatalB, opFatalIfBit, opSkip, opPanicStr, opNilDeref, opNilDerefB, opDeepA, opDeepB, opIfBit}
+var alphaShrink = []uint8{opReturn, opDrawBool, opErrorf, opFatalA, opFatalB, opHelperA, opHelperB, opFatalIfBit, opSkip, opPanicStr, opNilDeref, opNilDerefB, opDeepA, opDeepB, opIfBit}
 var alphaShrinkDeep = []uint8{opReturn, opDrawBool, opDrawSmall, opErrorf, opFatalA, opFatalB, opFatalIfBit, opFatalVal, opSkip, opPanicStr, opNilDeref, opNilDerefB, opDeepA, opDeepB, opIfBit}
 
 // H_C05_accept: one step of the real shrinker.accept from any state a run can produce.
@@ -98,4 +98,62 @@ func H_C05_accept() {
 	err3 := checkOnce(newT(tb, newBufBitStream(s.rec.data, false), false, nil), p.prop)
 	vassert(err3 != nil && sameError(err3, s.err), "C01: the buffer kept by the shrinker does not reproduce the failure it is reported with")
 	vassert(p.last().fatalAt == site0, "C05: minimization moved to a different failure site")
+}
+
+// varGroupProp draws two standalone groups with the same label whose length depends on their
+// first bit (flag 0: two payload words, flag 1: one) and fails, always at the same site, iff
+// one group is long and the other short - whichever comes first. It records the buffer of every
+// invocation made on a recording buffer stream: in the shrinker that is the second run of
+// accept(), i.e. a candidate that is being accepted.
+type varGroupProp struct {
+	accepted [][]uint64
+}
+
+func (v *varGroupProp) prop(t *T) {
+	if bs, ok := t.s.(*bufBitStream); ok && bs.persist {
+		v.accepted = append(v.accepted, append([]uint64(nil), bs.buf...))
+	}
+	var flags [2]uint64
+	for k := 0; k < 2; k++ {
+		g := t.s.beginGroup("w", true)
+		flags[k] = t.s.drawBits(1)
+		_ = t.s.drawBits(64)
+		if flags[k] == 0 {
+			_ = t.s.drawBits(64)
+		}
+		t.s.endGroup(g, false)
+	}
+	if flags[0] != flags[1] {
+		t.Fatalf("one long and one short group")
+	}
+}
+
+// H_C05_shrinkSteps: the real shrink() (all passes: removal, block minimisation, the expensive
+// group passes incl. sorting) on a failing recording with two same-label groups of different
+// length: every candidate it accepts is strictly smaller than the one before, and what it
+// returns is not larger than what it was given.
+func H_C05_shrinkSteps() {
+	flags.debug, flags.debugvis = false, false
+	pay := []uint64{0, 3, 1 << 40}
+	orig := []uint64{0, pay[choose("a", 3)], pay[choose("b", 3)], 1, pay[choose("c", 3)]}
+	if choose("order", 2) == 1 {
+		orig = []uint64{1, orig[4], 0, orig[1], orig[2]}
+	}
+	v := &varGroupProp{}
+	s := newBufBitStream(append([]uint64(nil), orig...), true)
+	err := checkOnce(newT(nil, s, false, nil), v.prop)
+	vassert(err != nil && !err.isInvalidData(), "C05: harness property did not fail on its original buffer")
+	rec := s.recordedBits
+	start := append([]uint64(nil), rec.data...)
+	v.accepted = nil
+	buf, err2 := shrink(nilTB{}, farDeadline(), rec, err, v.prop)
+	prev := start
+	for _, c := range v.accepted {
+		vassert(compareData(c, prev) < 0, "C05: the shrinker accepted a candidate that is not strictly smaller than its current test case")
+		prev = c
+		reach("accepted-step")
+	}
+	vassert(compareData(buf, start) <= 0, "C05: shrink() returned a test case larger than the one it was given")
+	vassert(err2 != nil && traceback(err2) == traceback(err), "C05: shrink() returned a different failure")
+	reach("shrunk")
 }
